@@ -28,7 +28,7 @@ Qed.
 
 Theorem balanced_at_end s :
   Good s -> (forall r, (r < NP)%nat -> get_slot s r = None) ->
-  live_blocks s = [] /\ (c_trivial cfg = false -> alive_cells s = 0).
+  live_blocks s = [] /\ (c_tdtor cfg = false -> alive_cells s = 0).
 Proof.
   intros (I & W & (T1 & T2 & T3)) Hnone.
   assert (Hdead : forall blk, In blk (s_blocks s) -> b_live blk = false).
@@ -148,7 +148,7 @@ Qed.
 
 (* ---- C08: sizing constructors do not write elements of trivially default-constructible types ---- *)
 Theorem sized_ctor_trivial_not_written r a x s s' :
-  c_trivial cfg = true -> step cfg (OCtorSized r a x) s = Ok tt s' ->
+  c_tdc cfg = true -> step cfg (OCtorSized r a x) s = Ok tt s' ->
   exists a', get_slot s' r = Some a' /\
     (0 < bnumel x -> exists b blk, a_base a' = PBlk b /\ get_blk s' b = Some blk /\ b_cells blk = repeat Raw (Z.to_nat (bnumel x))).
 Proof.
@@ -164,7 +164,7 @@ Proof.
                (emit (EvAlloc a (length (s_blocks s0)) (bnumel x))
                   (set_blocks s0 (s_blocks s0 ++ [mkblock a (bnumel x) (repeat Raw (Z.to_nat (bnumel x))) true])))) ;;;
              ret (PBlk (length (s_blocks s0)))) s1 with
-      | Ok p s2 => (match p with PBlk b => if c_trivial cfg then ret tt else default_construct_n b 0 (Z.to_nat (bnumel x)) | PNull => ret tt end ;;;
+      | Ok p s2 => (match p with PBlk b => if c_tdc cfg then ret tt else default_construct_n b 0 (Z.to_nat (bnumel x)) | PNull => ret tt end ;;;
                     install r a p x) s2
       | Threw s2 => Threw s2 | Err e => Err e end = Ok tt s' ->
       exists a', get_slot s' r = Some a' /\
@@ -227,8 +227,8 @@ Proof.
   intros H. open_ctor H. unfold bind at 1 in H. pose proof (keeps_alloc a (bnumel x) s) as K.
   destruct (alloc a (bnumel x) s) as [p s1|s1|e]; try discriminate.
   unfold bind at 1 in H.
-  assert (K2 : keeps (match p with PBlk b => if c_trivial cfg then ret tt else default_construct_n b 0 (Z.to_nat (bnumel x)) | PNull => ret tt end)).
-  { destruct p; [apply keeps_ret|]. destruct (c_trivial cfg); [apply keeps_ret|apply keeps_default_construct_n]. }
+  assert (K2 : keeps (match p with PBlk b => if c_tdc cfg then ret tt else default_construct_n b 0 (Z.to_nat (bnumel x)) | PNull => ret tt end)).
+  { destruct p; [apply keeps_ret|]. destruct (c_tdc cfg); [apply keeps_ret|apply keeps_default_construct_n]. }
   specialize (K2 s1).
   match type of H with match ?m with _ => _ end = _ => destruct m as [[] s2|s2|e] end; try discriminate.
   unfold install in H. rewrite set_arr_eq in H. inv H. unfold alloc_of, set_slot.
